@@ -14,6 +14,17 @@ Bounded-exhaustive product: declarations x candidate values x entry points.
                  and Decimal, whitespace-padded strings around max_len), None, '', whitespace, wrong types,
                  digit strings, bool, __index__ objects, subclasses, nan/inf.
   entry points   E(a=v), E() with the default, obj.a = v, obj.set(a=v), E.get(a=v), E.select(a=v)
+  indirect       the same value arriving as a RAW KEY VALUE of a relationship: the declaration is the primary key of P
+  routes         (and part of the composite key (a, int) of K); four shapes - ref: Q.r = Required(P), raw v; ref2:
+                 PP(p = PrimaryKey(P)), Q.r = Required(PP), raw v (the target's key is itself a reference, depth 2);
+                 cref: C(PrimaryKey(p -> P, n)), raw (v, 1); ckey: Q.r = Required(K), raw (v, 1) - each through
+                 Q(r=raw), q.r = raw, q.set(r=raw), Q.get(r=raw), Q.select(r=raw), for every candidate value
+                 (tuples excepted: key syntax) of a grid of key-capable declarations (quick: 25 over int / str /
+                 Decimal / date / datetime / UUID / bool / bytes / time / timedelta with min, max, size, unsigned,
+                 max_len, autostrip, py_check; thorough: additionally every consistent Required declaration above).
+                 Same reference verdicts: reject -> every route raises; accept -> the innermost key of the referenced
+                 object is exactly the normalised value and, with the whole chain stored under the normalised value,
+                 the look-ups by the raw value find it; undecided -> sound, and equal to what P(k=v) does.
 
 Oracle: vf/props/_c08_ref.py - a three-valued reference predicate written from the API reference
 (accept / reject / documented behaviour does not decide). For 'accept' every entry point must accept
@@ -387,7 +398,188 @@ def judge(sub, E, d, v, res):
                 sub.violation('%s:%s:look-ups and writes disagree on acceptance' % (d['tkey'], label), case,
                               '%s: %s' % (text, dict((e, res[e]) for e in judged)))
 
+# ---- indirect routes: a constrained value arriving as a RAW KEY VALUE of a reference -----------------------------------
+# P(k = PrimaryKey(<declaration>));  K(a = Required(<declaration>), n = Required(int), PrimaryKey(a, n))
+#   ref   Q1.r = Required(P)                          raw key v        (depth 1)
+#   ref2  PP(p = PrimaryKey(P)); Q2.r = Required(PP)  raw key v        (depth 2: the target's primary key is itself a reference)
+#   cref  C(PrimaryKey(p -> P, n)); Q3.r = Required(C)  raw key (v, 1)   (composite key containing a reference)
+#   ckey  Q4.r = Required(K)                          raw key (v, 1)   (composite key containing the attribute)
+SHAPES = ('ref', 'ref2', 'cref', 'ckey')
+INNER = dict(ref=lambda q: q.r.k, ref2=lambda q: q.r.p.k, cref=lambda q: q.r.p.k, ckey=lambda q: q.r.a)
+def raw_key(shape, v): return v if shape in ('ref', 'ref2') else (v, 1)
+
+def indirect_declarations(quick):
+    out = []
+    add = lambda *a, **k: out.append(D('Required', *a, **k))
+    for kw in ({}, dict(min=1), dict(max=5), dict(min=1, max=1000), dict(size=8), dict(size=8, unsigned=True), dict(size=64, min=-1)):
+        add('int', (), kw)
+    add('int', (), dict(min=0, max=5), 'ne'); add('int', (), {}, 'raise')
+    for args, kw in (((), {}), ((3,), {}), ((3,), dict(autostrip=False)), ((), dict(max_len=1)), ((), dict(autostrip=False)), ((4,), dict(autostrip=True))):
+        add('str', args, kw)
+    add('str', (3,), {}, 'ne')
+    add('Decimal', (), {}); add('Decimal', (5, 1), dict(min=0, max=1))
+    for t in ('date', 'datetime', 'UUID', 'bool', 'bytes', 'timedelta', 'time'): add(t, (), {})
+    if not quick:
+        for d in declarations(False):
+            if d['kind'] == 'Required' and 'default' not in d['kw'] and 'nullable' not in d['kw'] and R.decl_verdict(d)[0] == 'accept':
+                out.append(d)
+    return out
+
+def build_indirect(d):
+    from pony import orm
+    warnings.simplefilter('ignore')
+    db = orm.Database()
+    T = _pytypes()[d['tkey']]
+    def opts():
+        kw = dict(d['kw'])
+        if d['check']: kw['py_check'] = R.py_check_fn(d)
+        return kw
+    P = type('P', (db.Entity,), dict(k=orm.PrimaryKey(T, *d['args'], **opts()), q1s=orm.Set('Q1'), pp=orm.Optional('PP'), cs=orm.Set('C')))
+    Q1 = type('Q1', (db.Entity,), dict(id=orm.PrimaryKey(int), r=orm.Required('P')))
+    PP = type('PP', (db.Entity,), dict(p=orm.PrimaryKey('P'), q2s=orm.Set('Q2')))
+    Q2 = type('Q2', (db.Entity,), dict(id=orm.PrimaryKey(int), r=orm.Required('PP')))
+    ns = dict(p=orm.Required('P'), n=orm.Required(int), q3s=orm.Set('Q3')); ns['_pk_'] = None
+    class C(db.Entity):
+        p = orm.Required('P'); n = orm.Required(int); q3s = orm.Set('Q3')
+        orm.PrimaryKey(p, n)
+    Q3 = type('Q3', (db.Entity,), dict(id=orm.PrimaryKey(int), r=orm.Required('C')))
+    class K(db.Entity):
+        a = orm.Required(T, *d['args'], **opts()); n = orm.Required(int); q4s = orm.Set('Q4')
+        orm.PrimaryKey(a, n)
+    Q4 = type('Q4', (db.Entity,), dict(id=orm.PrimaryKey(int), r=orm.Required('K')))
+    db.bind('sqlite', ':memory:')
+    db.generate_mapping(create_tables=True)
+    return db, dict(P=P, PP=PP, C=C, K=K, ref=Q1, ref2=Q2, cref=Q3, ckey=Q4)
+
+def probe_indirect(M, v, base):
+    """every raw-key route for one value -> {(shape, entry point): outcome}, plus ('direct', 'ctor')"""
+    from pony.orm import db_session, rollback
+    res = {}
+    with db_session:
+        res[('direct', 'ctor')] = attempt(lambda: M['P'](k=v).k)
+        rollback()
+        for shape in SHAPES:
+            Q, rv, inner = M[shape], raw_key(shape, v), INNER[shape]
+            res[(shape, 'ctor')] = attempt(lambda: inner(Q(id=1, r=rv)))
+            rollback()
+            if base is not None:
+                for entry in ('assign', 'set'):
+                    try: o = Q(id=2, r=raw_key(shape, base))
+                    except Exception: o = None
+                    def write():
+                        if entry == 'assign': o.r = rv
+                        else: o.set(r=rv)
+                        return inner(o)
+                    if o is not None: res[(shape, entry)] = attempt(write)
+                    rollback()
+            def get():
+                o = Q.get(r=rv)
+                return None if o is None else o.id
+            res[(shape, 'get')] = attempt(get)
+            rollback()
+            res[(shape, 'select')] = attempt(lambda: sorted(o.id for o in Q.select(r=rv)[:]))
+            rollback()
+    return res
+
+def find_indirect(M, nv, v):
+    """store the whole chain under the normalised value, then look every referencing object up by the raw value"""
+    from pony.orm import db_session, rollback, flush
+    with db_session:
+        try:
+            p = M['P'](k=nv); M['ref'](id=1, r=p); M['ref2'](id=1, r=M['PP'](p=p)); M['cref'](id=1, r=M['C'](p=p, n=1))
+            M['ckey'](id=1, r=M['K'](a=nv, n=1)); flush()
+        except Exception:
+            rollback(); return None
+        out = {}
+        for shape in SHAPES:
+            Q, rv = M[shape], raw_key(shape, v)
+            def get():
+                o = Q.get(r=rv)
+                return None if o is None else o.id
+            out[(shape, 'get')] = attempt(get)
+            out[(shape, 'select')] = attempt(lambda: sorted(o.id for o in Q.select(r=rv)[:]))
+        rollback()
+    return out
+
+def judge_indirect(sub, M, d, v, res):
+    ver, info = R.verdict(d, v)
+    case = dict(decl=enc(d), value=enc(v), route='raw-key')
+    text = '%s as a raw key value <- %s' % (decl_text(d), enc(v)[:60])
+    sub.count('raw_key_verdict:' + ver)
+    groups = {}     # (why, kind, entry class) -> shapes
+    direct = res[('direct', 'ctor')]
+    def collect(shape, r, g):
+        judged = [e for e in WRITES + LOOKUPS if e in r]
+        for (why, kind), es in g.items(): groups.setdefault((why, kind, entries_label(es, judged)), []).append(shape)
+    for shape in SHAPES:
+        r = dict((e, x) for (s, e), x in res.items() if s == shape)
+        g = {}
+        def bad(why, kind, e): g.setdefault((why, kind), []).append(e)
+        for e in [e for e in WRITES + LOOKUPS if e in r]:
+            st, val = r[e]
+            sub.count('evaluations'); sub.count('raw_key_evaluations')
+            if ver == 'accept':
+                if st == 'exc': bad(R.position(d, info), 'refuses an acceptable value', e)
+                elif e in WRITES and not same_value(val, info): bad(R.position(d, info), 'stores a different value', e)
+            elif ver == 'reject':
+                sub.count('raw_key_must_reject_evaluations')
+                if st == 'ok': bad(info, 'accepts it', e)
+            elif e in WRITES:
+                s = R.sound(d, val) if st == 'ok' else None
+                if s: bad(s, 'accepts it', e)
+                elif st != direct[0] or (st == 'ok' and not (val == direct[1] or same_value(val, direct[1]))):   # ==: the identity map may hand back an equal key
+                    bad('undecided', 'differs from the direct assignment of the same value', e)
+        collect(shape, r, g)
+    if ver == 'accept' and not groups and exact_lookup(d, info):
+        found = find_indirect(M, info, v)
+        if found is None: sub.count('raw_key_find_fixture_refused')
+        else:
+            for shape in SHAPES:
+                g = {}
+                for e in LOOKUPS:
+                    sub.count('evaluations'); sub.count('raw_key_lookup_must_find')
+                    st, val = found[(shape, e)]
+                    if st == 'exc' or ((val != 1) if e == 'get' else (1 not in val)):
+                        g.setdefault((R.position(d, info), 'does not find the object stored with this value'), []).append(e)
+                        res = dict(res); res[(shape, 'find:' + e)] = found[(shape, e)]
+                collect(shape, dict((e, found[(shape, e)]) for e in LOOKUPS), g)
+    for (why, kind, el), shapes in sorted(groups.items()):
+        route = 'every raw-key route' if len(shapes) == len(SHAPES) else 'raw key via ' + '+'.join(shapes)
+        sig = '%s:%s:%s:%s:%s' % (type_label(d, why), why, route, el, kind)
+        sub.violation(sig, case, '%s: reference says %s (%s); %s: %s; observed %s' % (text, ver, info if ver != 'accept' else why, route, kind,
+                      dict(('%s.%s' % k, x) for k, x in sorted(res.items()) if k[0] in shapes or k[0] == 'direct')))
+
+def indirect_values(d, quick):
+    return [v for v in candidates(d, quick) if type(v) is not tuple]      # a tuple is key syntax, not a value
+
+def indirect_base(d, vals):
+    for v in vals:
+        ver, nv = R.verdict(d, v)
+        if ver == 'accept' and nv is not None and type(v) is R.TYPES[d['tkey']]: return v
+    return None
+
+def run_indirect(item):
+    d = dec(item[0]); quick = item[1]
+    sub = core.Sub()
+    sub.count('raw_key_declarations')
+    try: db, M = build_indirect(d)
+    except Exception as e:
+        sub.count('raw_key_schema_refused:' + type(e).__name__); return sub.dump()    # what may be a primary key is not this property
+    sub.count('raw_key_declarations_mapped')
+    vals = indirect_values(d, quick)
+    base = indirect_base(d, vals)
+    for v in vals:
+        res = probe_indirect(M, v, base)
+        sub.count('raw_key_cases')
+        judge_indirect(sub, M, d, v, res)
+    if len(sub.samples) < 1 and d['tkey'] == 'str' and d['args'] == (3,) and not d['kw'] and not d['check']:
+        sub.sample(dict(declaration='PrimaryKey' + decl_text(d)[8:], raw_key_routes=list(SHAPES), values=len(vals),
+                        entry_points=list(WRITES + LOOKUPS)))
+    db.disconnect()
+    return sub.dump()
+
 def run_declaration(item):
+    if len(item) > 2: return run_indirect(item)
     d = dec(item[0]); quick = item[1]
     sub = core.Sub()
     sub.count('declarations')
@@ -446,6 +638,10 @@ def run(ctx):
     for d in decls:
         k = enc(d)
         if k not in seen: seen.add(k); items.append((k, ctx.quick))
+    seen = set()
+    for d in indirect_declarations(ctx.quick):
+        k = enc(d)
+        if k not in seen: seen.add(k); items.append((k, ctx.quick, 'raw-key'))
     # quick tier: 15 s of CPU in total; a small pool is as fast as a big one on an idle machine and much
     # faster on a loaded one (16 forked workers were measured 4x slower than 1 under heavy contention)
     for dumped in ctx.pmap(run_declaration, ctx.shuffled(items), chunksize=4, workers=min(ctx.nworkers, 4) if ctx.quick else None):
@@ -458,19 +654,34 @@ def run(ctx):
     ctx.guard('must-reject evaluations', c.get('must_reject_evaluations', 0), 20000)
     ctx.guard('look-ups that had to find a stored object', c.get('lookup_must_find', 0), 3000)
     ctx.guard('undecided values accepted and checked for soundness', c.get('undecided_accepted', 0), 1000)
+    ctx.guard('raw-key declarations mapped', c.get('raw_key_declarations_mapped', 0), 20)
+    ctx.guard('raw-key must-reject evaluations', c.get('raw_key_must_reject_evaluations', 0), 10000)
+    ctx.guard('raw-key look-ups that had to find a stored chain', c.get('raw_key_lookup_must_find', 0), 2000)
+    ctx.assume('a raw key value given for a relationship attribute is validated like a direct assignment to the referenced '
+               'primary key attribute(s), at any depth; a declaration Pony refuses as a primary key is skipped (counted), a tuple '
+               'is key syntax and not tried as a raw value')
     ctx.assume('reference predicate vf/props/_c08_ref.py encodes the documented option semantics (API reference: '
                'size/unsigned ranges, inclusive min/max, max_len, autostrip = str.strip, Required rejects None and \'\', '
                'Optional str rejects None unless nullable); undocumented conversions are undecided, never judged')
     ctx.assume('all entry points run against SQLite; validation code is dialect independent except unsigned 64-bit '
                'and the default varchar length, which are treated as undecided')
-    return dict(evaluations=c.get('evaluations', 0), distinct_nontrivial=c.get('cases', 0) + c.get('declarations', 0),
+    return dict(evaluations=c.get('evaluations', 0), distinct_nontrivial=c.get('cases', 0) + c.get('declarations', 0) + c.get('raw_key_cases', 0),
                 rule='(declaration, candidate value) pairs, each pushed through constructor, assignment, set(), '
                      'Entity.get(attr=v) and Entity.select(attr=v) (+ the omitted-attribute constructor and the '
-                     'mapping-time verdict per declaration); an evaluation is one entry-point outcome compared '
-                     'with the reference verdict')
+                     'mapping-time verdict per declaration), and as a raw key value through the same entry points of '
+                     'four reference shapes; an evaluation is one entry-point outcome compared with the reference verdict')
 
 def replay(ctx, case):
     d = dec(case['decl'])
+    if case.get('route') == 'raw-key':
+        db, M = build_indirect(d)
+        v = dec(case['value']); sub = core.Sub()
+        res = probe_indirect(M, v, indirect_base(d, indirect_values(d, False)))
+        print(decl_text(d), 'raw key value', case['value'], 'reference', R.verdict(d, v))
+        for k, x in sorted(res.items()): print('   %s.%s -> %r' % (k[0], k[1], x))
+        judge_indirect(sub, M, d, v, res)
+        for sig in sub.found: print('  ', sig)
+        return not sub.found
     print(decl_text(d), '| reference for the declaration:', R.decl_verdict(d))
     try: db, E = build(d)
     except Exception as e:
